@@ -1212,6 +1212,13 @@ impl TypeChecker {
             ident = tmp_ident;
         }
 
+        // `pkg` at the start of a path always names the root of the package:
+        // it is looked up in the global scope, whatever the enclosing scopes
+        // declare or import under that name.
+        if recurse && ident.node == "pkg".into() {
+            scope = ScopeRef::GLOBAL;
+        }
+
         // Keep checking modules until we find something that isn't a module
         // The current implementation is a bit strange because it uses
         // resolve_name, but after the first identifier, it should actually
